@@ -145,6 +145,17 @@ def t1_raw(ctx, state, text: str, gid: str = "g:surface") -> dict:
     }
 
 
+def _flat(d: Any, prefix: str = "") -> Dict[str, Any]:
+    """dotted-leaf view of a config subtree"""
+    out: Dict[str, Any] = {}
+    if isinstance(d, dict):
+        for k, v in d.items():
+            out.update(_flat(v, f"{prefix}{k}."))
+    else:
+        out[prefix[:-1]] = d if isinstance(d, (int, str, bool, type(None))) else repr(d)
+    return out
+
+
 def t2_raw(ctx, state, text: str, t1) -> dict:
     """The read-set of `t2_semantic` as the record `Clem.CacheKeys.T2Raw`."""
     from clematis.engine.stages.t2.state import gather_changed_labels, build_label_map
@@ -174,6 +185,8 @@ def t2_raw(ctx, state, text: str, t1) -> dict:
         "ver": int(idx.index_version()) if idx is not None else 0,
         "index": code(index_content(idx)) if idx is not None else 0,
         "labelMap": code(sorted(build_label_map(state).items())),
+        "_q": _flat(q), "_hyb": _flat(cfg_t2.get("hybrid", {}) or {}),
+        "_gel": code(sorted((str(k), str(v)) for k, v in ((state.get("graph") or {}).get("edges") or {}).items())),
         "rest": code([cfg_t2.get("hybrid", {}), {k: v for k, v in q.items()},
                       sorted((str(k), str(v)) for k, v in ((state.get("graph") or {}).get("edges") or {}).items())]),
     }
